@@ -287,6 +287,55 @@ class strict_needs_three_tokens:
         return {"always-rejected-with-ValueError": out.raised(ValueError)}
 
 
+class two_token_now_independence:
+    """two-token strings, two reference times, REQUIRE_PARTS naming one or two parts: whichever part
+    the tokens state, a required part of a returned value never depends on the reference time, and
+    requiring both day and month of a string with one numeric token besides the year rejects it."""
+
+    name = "parser._parser.parse/two-token-now-independence"
+    func = "dateparser.parser._parser.parse"
+    props = ["C10"]
+
+    @classmethod
+    def cases(cls, thorough=False):
+        out = []
+        for fam in strict_needs_three_tokens.TWO:
+            for order in (("MDY", "YMD", "DMY") if thorough else ("MDY", "YMD")):
+                for req in (["day"], ["month"], ["day", "month"]) + ((["year"],) if thorough else ()):
+                    out.append(dict(family=fam, DATE_ORDER=order, REQUIRE_PARTS=req))
+        return out
+
+    @staticmethod
+    def setup(inp, case):
+        from dateparser.parser import _parser
+        from pyvc.harness import build, make_settings
+
+        n1 = inp.datetime("now1")
+        n2 = inp.datetime("now2")
+        inp.assume(And(n1.year >= 10, n1.year <= 9990, n2.year >= 10, n2.year <= 9990))
+        kw = dict(TIMEZONE="UTC", DATE_ORDER=case["DATE_ORDER"],
+                  REQUIRE_PARTS=list(case["REQUIRE_PARTS"]))
+        a = make_settings(RELATIVE_BASE=n1, **kw)
+        b = make_settings(RELATIVE_BASE=n2, **kw)
+        s, f = build(inp, strict_needs_three_tokens.TWO[case["family"]])
+        return _two_runs(_parser.parse), (s, a, b), {}, {}
+
+    @staticmethod
+    def post(case, g, out):
+        if not out.ok:
+            return {"only-ValueError-is-raised": False}
+        (k1, r1), (k2, r2) = out.value
+        res = {"only-ValueError-is-raised": True}
+        if k1 == "ok" and k2 == "ok":
+            d1, d2 = r1[0], r2[0]
+            res["required-parts-same-for-both-reference-times"] = And(
+                *[getattr(d1, p) == getattr(d2, p) for p in case["REQUIRE_PARTS"]])
+        one_numeric = case["family"] in ("nn-yyyy", "yyyy-nn", "nn", "n-yyyy", "nn-yyyy-time", "nn/yyyy")
+        if one_numeric and case["REQUIRE_PARTS"] == ["day", "month"]:
+            res["one-token-cannot-state-day-and-month"] = k1 != "ok" and k2 != "ok"
+        return res
+
+
 class api_level_strictness:
     """C10 at the API: strictness must only filter, also through the custom-format parser and
     across languages.  Concrete inputs (the first design's composition counterexamples); all-concrete
@@ -348,4 +397,4 @@ class api_level_strictness:
         }
 
 
-CONTRACTS += [strict_needs_three_tokens, api_level_strictness]
+CONTRACTS += [strict_needs_three_tokens, two_token_now_independence, api_level_strictness]
